@@ -471,8 +471,9 @@ func EncodeXZ(sp StreamSpec) (stream, plain []byte, err error) {
 		for len(h)%4 != 0 {
 			h = append(h, 0)
 		}
-		for i := 0; i < b.ExtraPad*4; i++ {
-			h = append(h, 0)
+		// extra padding, up to the largest header the size byte can state
+		for i := 0; i < b.ExtraPad && len(h)+4+4 <= 1024; i++ {
+			h = append(h, 0, 0, 0, 0)
 		}
 		if (len(h)+4)/4-1 > 255 {
 			return nil, nil, errors.New("ref: block header too large")
